@@ -170,8 +170,13 @@ Definition to_string (v : version) : str :=
     if epoch v =? 0 then upstream v
     else N_to_dec (epoch v) ++ [58] ++ upstream v in
   if negb (str_eqb (revision v) [48]) then base ++ [45] ++ revision v
-  else if mem_char 45 (upstream v) then base ++ [45; 48]
-  else base.
+  else
+    match upstream v with
+    | [] => base
+    | _ =>
+        if mem_char 45 (upstream v) || negb (last_is is_ascii_alnum (upstream v))
+        then base ++ [45; 48] else base
+    end.
 
 (* __eq__ / tuple() *)
 Definition version_eqb (a b : version) : bool :=
